@@ -568,7 +568,8 @@ pub fn tworlds(id: &str, tier: Tier) -> Vec<crate::threaded::TSpec> {
             add("toy fetch_add counter".into(), TKind::ToyCounter { atomic_rmw: true }, 2, false, None, u32::MAX);
         },
         "C18" => {
-            let p = if quick { 3 } else { 4 };
+            // (thorough: bound 4 took hours on combine/2 d=2; 3 everywhere, unbounded for d=1)
+            let p = 3;
             for (kind, name) in [(TKind::Merge(2), "merge/2"), (TKind::Combine(2), "combine/2")] {
                 add(name.into(), kind.clone(), 2, false, None, p);
                 add(name.into(), kind.clone(), 2, true, None, if quick { 2 } else { 3 });
@@ -577,9 +578,8 @@ pub fn tworlds(id: &str, tier: Tier) -> Vec<crate::threaded::TSpec> {
                 add(name.into(), kind.clone(), 2, false, Some(0), if quick { 2 } else { 3 });
                 add(name.into(), kind.clone(), 1, false, None, u32::MAX);
                 if !quick {
-                    add(name.into(), kind.clone(), 1, true, None, u32::MAX);
-                    add(name.into(), kind.clone(), 3, false, None, 3);
-                    add(name.into(), kind.clone(), 1, true, Some(0), 4);
+                    add(name.into(), kind.clone(), 3, false, None, 2);
+                    add(name.into(), kind.clone(), 1, true, Some(0), 3);
                 }
             }
             for (kind, name) in [(TKind::Merge(3), "merge/3"), (TKind::Combine(3), "combine/3")] {
